@@ -316,6 +316,15 @@ pub fn run(args: &Args) -> i32 {
             st.viol("writer/plaintext-visible", format!("{what}: the plaintext occurs in the archive"), case(), order);
         }
         check_entry(&bytes, idx, ename, pw, &content, &what, st, &case, order);
+        // the same program with every option setter called twice (another method / level / time / flag / password first):
+        // the last call decides, the archive is byte-identical
+        {
+            let (res2, bytes2) = with_setters_twice(|| exec(&calls, &[]));
+            st.evals += 1;
+            if res2 != res || bytes2 != bytes {
+                st.viol("writer/options-set-twice-change-archive", format!("{what}: with every FileOptions setter (password included) called twice, the earlier value first, the {}", if res2 != res { "call results differ" } else { "archive bytes differ: the earlier values are not fully replaced" }), case(), order);
+            }
+        }
         // a few wrong passwords right away
         for w in [&b"wrong"[..], &b""[..], &b"P"[..]] {
             if w != &pw[..] {
